@@ -41,7 +41,8 @@ ASSUMPTIONS = [
 EXPECTED_PROBES = {'C19': ['nested_silent', 'exception_in_silent', 'reentrant_emit',
                            'last_before_normal', 'single_emit', 'reporter_crossing',
                            'reset_then_cross', 'silent_under_set_silent', 'callback_raises',
-                           'emit_while_silenced', 'sender_filter_excludes']}
+                           'emit_while_silenced', 'sender_filter_excludes',
+                           'unconnect_several_items']}
 
 
 # --------------------------------------------------------------------------------------------------
@@ -103,8 +104,15 @@ def gen(rng, prop, tier):
             ops.append({'op': 'unconnect_cb',
                         'cbs': sorted(set(rng.randrange(n_cb) for _ in range(rng.randint(1, 2))))})
         elif k == 'unconnect_sender':
-            ops.append({'op': 'unconnect_sender',
-                        'sender': rng.choice(['S0', 'S1', 'S2', 'R0', 'R1'])})
+            if rng.random() < 0.4:
+                items = [['sender', rng.choice(['S0', 'S1', 'S2', 'R0', 'R1'])]
+                         for _ in range(rng.randint(1, 2))]
+                items += [['cb', rng.randrange(n_cb)] for _ in range(rng.randint(0, 2))]
+                rng.shuffle(items)
+                ops.append({'op': 'unconnect_items', 'items': items})
+            else:
+                ops.append({'op': 'unconnect_sender',
+                            'sender': rng.choice(['S0', 'S1', 'S2', 'R0', 'R1'])})
         elif k == 'reset':
             ops.append({'op': 'reset'})
         elif k == 'set_silent':
@@ -137,6 +145,8 @@ def validate(plan):
         if op['op'] == 'connect' and op['cb'] >= n:
             return False
         if op['op'] == 'unconnect_cb' and any(c >= n for c in op['cbs']):
+            return False
+        if op['op'] == 'unconnect_items' and any(k == 'cb' and v >= n for k, v in op['items']):
             return False
     return True
 
@@ -363,6 +373,16 @@ def execute(plan, ctx):
             ctx.op('unconnect_sender')
             changed_since_emit = True
             ctx.ev(step, 'unconnect_sender', op['sender'])
+        elif k == 'unconnect_items':
+            objs = [w.senders[v] if kind == 'sender' else w.cbs[v]() for kind, v in op['items']]
+            ctx.real('unconnect', w.em.unconnect, *objs)
+            gone_s = set(v for kind, v in op['items'] if kind == 'sender')
+            gone_c = set(v for kind, v in op['items'] if kind == 'cb')
+            m.regs = [r for r in m.regs if r[1] not in gone_s and r[2] not in gone_c]
+            ctx.op('unconnect_items')
+            ctx.probe('unconnect_several_items')
+            changed_since_emit = True
+            ctx.ev(step, 'unconnect_items', op['items'])
         elif k == 'reset':
             ctx.real('reset', w.em.reset)
             m.regs = []
